@@ -67,6 +67,10 @@ CLAIMS = {
          "Necessary conditions on every enumerated path: each forwarded offer is preceded in its iteration by exactly one expectation insert on the SENDER's entry keyed (receiver id, that offer's id); all six fields of a forwarded offer (expectation, routing pair, offer, offer id) project from the same zip item; receivers are zip(offers, extract_response_peers(min(offers, max_offers), sender)) with no reordering adapter; handle_offers/handle_answer only on the status != Stopped edge; handle_answer's complete three-row table (peer gone -> nothing; expectation consumed by swap_remove -> AnswerOutMessage to the offering peer's own (consumer, connection) pair; otherwise ErrorResponse to the answerer).",
          "Not decided: multi-connection offer/answer histories (needs C08's bookkeeping to be right); expiry of expectations is decided under C10.",
          "DESIGN.md section 2, C09"),
+ "C20": ("ordering/guard analysis of the export protocol, origin of export fields and totals, path table of the tally messages, CFG dominance for the statistics worker",
+         "Necessary conditions: File::create(tmp) < both cleaning passes < flush < drop < rename(tmp, path) on every exporting path, rename only on the Ok edge of flush, tmp = path.with_extension (same directory), nobody else creates files except the statistics page writer; export lines carry version, info hash and .0/.1 of that torrent's clean_and_get_num_peers, only on num_peers != 0; tally messages: PeerRemoved names the removed entry's id, PeerAdded the request's id, id change sends both, same id none (rule exposed a genuine defect, fix: c58c050); cleaners emit PeerRemoved per expired peer; worker +1/-1 dominated by the matching arm; totals stored after both passes from the passes' results. Two recorded known findings (totals / tallies of access-list-dropped torrents).",
+         "Not decided: statistics arithmetic over message histories, rename atomicity (POSIX).",
+         "DESIGN.md section 2, C20"),
 }
 
 PENDING_REASON = "check under construction in this build phase (static rules designed in DESIGN.md section 2); not claimed until its rule set is validated both ways"
